@@ -46,9 +46,9 @@ def run(pid, tier, seed, replay=None):
             if exe is None:
                 fails.append({'what': 'chain harness does not compile against the current headers', 'log': (err or '')[-1200:]})
             else:
-                hops = 6000 if tier_ == 'quick' else 60000
+                hops = 6000 if tier_ == 'quick' else 20000
                 for i, (nr, selfsend, kb) in enumerate([(1, 1, 0), (2, 1, 0), (2, 0, 0)] if tier_ == 'quick' else [(1, 1, 0), (3, 1, 0), (2, 0, 0), (3, 0, 1)]):
-                    r = simrun(exe, nr, [hops, selfsend], ppn=nr, seed=seed_ * 11 + i, policy=['uniform', 'late', 'early', 'uniform'][i], wall=300,
+                    r = simrun(exe, nr, [hops, selfsend], ppn=nr, seed=seed_ * 11 + i, policy=['uniform', 'late', 'early', 'uniform'][i], wall=1200,
                                env={'YGM_COMM_BUFFER_SIZE_KB': kb})
                     ok = r['verdict'] == 'ok' and all(l.split()[2] == l.split()[3] for l in r['out'] if l.startswith('CH ')) and any(l.startswith('CH ') for l in r['out'])
                     state['chain_hops'] = state.get('chain_hops', 0) + hops * nr
